@@ -21,7 +21,7 @@ CHECKS = [
     check("C24", "cache_conc", "exploration",
           "Seeded search over interleavings of 2-4 simulated generator processes (real main.execute, real pickle/pathlib/tmpfs) "
           "sharing the cache directory, with process crashes at every file-system step incl. torn writes at arbitrary bytes, "
-          "injected errnos, short reads/writes, processes whose PIDs collide (separate PID namespaces on a shared volume); oracle = every surviving run and two later fresh runs per model equal the "
+          "injected errnos, short reads/writes, processes whose PIDs collide (separate PID namespaces on a shared volume), simulated time (0 to 40 days) passing before the later runs; oracle = every surviving run and two later fresh runs per model equal the "
           "uncached reference. Sampling, not enumeration: a clean batch is evidence, not proof.",
           "Trusted: the simulator kernel (baton-passed threads as processes, effect suppression after a crash), real tmpfs rename "
           "atomicity; fault model is process crash, not power loss.",
@@ -29,7 +29,7 @@ CHECKS = [
           "DESIGN.md section 2 (C24)"),
     check("C23", "cache_hist", "exploration",
           "Seeded histories of set-model / run (cache on|off, via CLI main or Parameters) / wipe-cache operations on a sandboxed "
-          "file system; every run is compared with the uncached reference run, every file-system event is audited "
+          "file system (edits incl. near-twin texts that differ in case, blank runs or one non-ASCII character); every run is compared with the uncached reference run, every file-system event is audited "
           "(sys.addaudithook) for confinement and for reuse of an entry produced from another text, and the pickled symbol "
           "table is compared with the original by dump, aliasing structure, id-sets and queries.",
           "Trusted: CPython's audit events cover every file open/rename/remove/mkdir; the temp dir is redirected into the sandbox.",
@@ -39,7 +39,7 @@ CHECKS = [
           "Every corpus case (model incl. rejected ones, snippets variant, target) and aas_core_meta.v3 is executed in several "
           "fresh interpreters that differ in PYTHONHASHSEED, heap layout incl. scrambled allocator free lists, directory listing order "
           "(scandir seam), output-dir location (also beneath the snippets dir) and history (absent, empty, foreign, same-named files that "
-          "are longer / identical / equal up to line endings / binary) and position in the process; rc, stdout up to the output path, stderr and the hashes of all "
+          "are longer / identical / equal up to line endings / binary), position in the process and locale (one child per plan runs under LC_ALL=C without UTF-8 mode); rc, stdout up to the output path, stderr and the hashes of all "
           "written files must agree.",
           "Trusted: each child interpreter is a pure function of its spec (self-tested); only the listed nondeterminism sources are varied.",
           "deterministic simulation: every nondeterminism source behind a seeded seam, differential comparison across seeded child interpreters",
